@@ -4,7 +4,7 @@
    several deliveries and both links, duplicates, terminal states settled and unsettled, the
    non-terminal `received` state, out of order.  SndMode / RcvMode select the settle modes. *)
 EXTENDS Integers, Sequences, TLC, Json
-CONSTANTS Depth, RcvMode, SndMode
+CONSTANTS Depth, RcvMode, SndMode, PeerH1, PeerH3   \* PeerH*: the handles the peer assigns to the two links
 
 Alphabet == {"Send1", "Send3", "SendSettled", "D0acc", "D1rej", "D01rel", "DAllmod", "D2acc", "D0accU", "D1relU", "D0recvU", "Await0", "Await1", "Await2"}
 VARIABLES script
@@ -21,11 +21,11 @@ Prefix == <<
   [e |-> "ABegin", s |-> "s1", cfg |-> [noi |-> 1000, iw |-> 100, ow |-> 100]],
   [e |-> "PFrame", perf |-> "begin", ch |-> 3, f |-> [rch |-> [ref |-> "s1"], noi |-> 0, iw |-> 5000, ow |-> 100]],
   [e |-> "AAttachS", l |-> "L1", s |-> "s1", cfg |-> [snd |-> SndMode, rcv |-> RcvMode, idc |-> 0]],
-  [e |-> "PFrame", perf |-> "attach", ch |-> 3, f |-> [name |-> "L1", h |-> 5, role |-> "r", snd |-> SndMode, rcv |-> RcvMode]],
-  LFlow(5),
+  [e |-> "PFrame", perf |-> "attach", ch |-> 3, f |-> [name |-> "L1", h |-> PeerH1, role |-> "r", snd |-> SndMode, rcv |-> RcvMode]],
+  LFlow(PeerH1),
   [e |-> "AAttachS", l |-> "L3", s |-> "s1", cfg |-> [snd |-> SndMode, rcv |-> RcvMode, idc |-> 0]],
-  [e |-> "PFrame", perf |-> "attach", ch |-> 3, f |-> [name |-> "L3", h |-> 8, role |-> "r", snd |-> SndMode, rcv |-> RcvMode]],
-  LFlow(8) >>
+  [e |-> "PFrame", perf |-> "attach", ch |-> 3, f |-> [name |-> "L3", h |-> PeerH3, role |-> "r", snd |-> SndMode, rcv |-> RcvMode]],
+  LFlow(PeerH3) >>
 RECURSIVE Body(_, _, _)
 Body(sc, i, ns) ==
   IF i > Len(sc) THEN <<>> ELSE
@@ -46,5 +46,5 @@ Body(sc, i, ns) ==
     [] e = "Await2" -> <<[e |-> "AAwaitOutcome", nth |-> 2]>> \o Body(sc, i + 1, ns)
 Suffix == << [e |-> "AAwaitOutcome", nth |-> 0], [e |-> "AAwaitOutcome", nth |-> 1], [e |-> "AAwaitOutcome", nth |-> 2], Disp(0, 3, TRUE, "accepted") >>
 Done == Len(script) = Depth
-Emit == Done => PrintT(<<"SCRIPT", ToJson([side |-> "client", id |-> <<RcvMode, SndMode>> \o script, ev |-> Prefix \o Body(script, 1, 0) \o Suffix])>>)
+Emit == Done => PrintT(<<"SCRIPT", ToJson([side |-> "client", id |-> <<RcvMode, SndMode, PeerH1, PeerH3>> \o script, ev |-> Prefix \o Body(script, 1, 0) \o Suffix])>>)
 =============================================================================
